@@ -512,6 +512,7 @@ import (
 //@ func (*Session).onEventData
 //@   requires s.shutdown != 1 ==> sessOK(s)
 //@   requires conn != nil
+//@   at call? commitRead#0 check a1 == consumed && 0 <= a1 && a1 <= len(buf)      // exactly what the handlers consumed is committed: nothing is skipped, nothing is parsed twice
 //@   modifies heap
 
 // C18: the receive window of the event connection
